@@ -12,6 +12,9 @@ pub enum Hop {
   Sub,
   /// the next delivery of an item to subscriber k subscribes a new one from inside the callback
   ArmNested(usize),
+  /// as ArmNested, but the callback subscribes TWO new subscribers and unsubscribes the first of
+  /// them again before it returns (join, join, leave within one delivery)
+  ArmNestedPair(usize),
   Unsub(usize),
   Next,
   Err,
@@ -309,6 +312,7 @@ pub fn exec<S: Subj>(h: &[Hop]) -> Result<Outcome, String> {
     let mut nested_used = false;
     // nested subscriptions requested: (armed on k, new id)
     let armed: Rc<std::cell::RefCell<Vec<usize>>> = Rc::new(Default::default());
+    let armed_pair: Rc<std::cell::RefCell<Vec<usize>>> = Rc::new(Default::default());
     let nested_done: Rc<std::cell::RefCell<Vec<(u32, Unsub, Closed)>>> = Rc::new(Default::default());
     for op in h {
       match op {
@@ -323,10 +327,14 @@ pub fn exec<S: Subj>(h: &[Hop]) -> Result<Outcome, String> {
             change_after_emission = true
           }
         }
-        Hop::ArmNested(k) => {
+        Hop::ArmNested(k) | Hop::ArmNestedPair(k) => {
           if *k < unsubs.len() && !ever_armed.contains(k) {
             ever_armed.push(*k);
             armed.borrow_mut().push(*k);
+            let pair = matches!(op, Hop::ArmNestedPair(_));
+            if pair {
+              armed_pair.borrow_mut().push(*k);
+            }
             let id = 1 + *k as u32;
             let s2 = subj.clone();
             let log2 = log.clone();
@@ -340,7 +348,14 @@ pub fn exec<S: Subj>(h: &[Hop]) -> Result<Outcome, String> {
                 if matches!(n, N::Next(_)) && armed2.borrow().contains(&kk) {
                   armed2.borrow_mut().retain(|x| *x != kk);
                   let (u, c) = s2.sub(100 + kk as u32, &log2);
-                  nd.borrow_mut().push((100 + kk as u32, u, c));
+                  if pair {
+                    // a second newcomer joins, then the first one leaves again, all within this delivery
+                    let (u2, c2) = s2.sub(125 + kk as u32, &log2);
+                    nd.borrow_mut().push((125 + kk as u32, u2, c2));
+                    u();
+                  } else {
+                    nd.borrow_mut().push((100 + kk as u32, u, c));
+                  }
                 }
               }),
             );
@@ -381,8 +396,10 @@ pub fn exec<S: Subj>(h: &[Hop]) -> Result<Outcome, String> {
           // nested subscribers join after the in-flight item
           for k in will_nest {
             if !finished {
-              active[50 + k] = true;
-              order.push(50 + k);
+              // with a pair the first newcomer (index 50+k) left again at once; the second stays
+              let idx = if armed_pair.borrow().contains(&k) { 75 + k } else { 50 + k };
+              active[idx] = true;
+              order.push(idx);
               nested_used = true;
             }
           }
@@ -468,7 +485,7 @@ pub fn random_history(r: &mut Rng, max_len: usize) -> Vec<Hop> {
         Hop::Sub
       }
       4 | 5 if subs > 0 => Hop::Unsub(r.below(subs)),
-      6 if subs > 0 => Hop::ArmNested(r.below(subs)),
+      6 if subs > 0 => if r.chance(1, 3) { Hop::ArmNestedPair(r.below(subs)) } else { Hop::ArmNested(r.below(subs)) },
       7..=13 => Hop::Next,
       14 => Hop::Err,
       15 => Hop::Complete,
